@@ -14,8 +14,17 @@ def runs(tier, seed, replay):
              "timeout": 14000 if tier == "thorough" else 1500}]
 
 
+def nontrivial(block):
+    """a history tree with an accepted update, a rejected update and an undo"""
+    import re
+    return (re.search(r"^s \d+ clause-update.*\na ok$", block, re.M) is not None
+            and re.search(r"^a err ", block, re.M) is not None
+            and re.search(r"^s \d+ undo-update$", block, re.M) is not None)
+
+
 CONFIG = {
     "runs": runs,
+    "nontrivial": nontrivial,
     "status": "full for the repaired code (HEAD, after F8), refuted for the code before it; two findings on HEAD. "
               "C12_refines: for EVERY command list (clause-update with any t/add/rmv lists, undo-update, save-cnf) run from a CNF-loaded state, "
               "the model of ClauseCache (setup_for_edit with rollback, setup_for_undo, apply_edits_and_replace, update_cached_state+swap, "
@@ -32,9 +41,10 @@ CONFIG = {
               "C12_core_answers: under the compiler contract (Section hypothesis, checked per compilation by the run) the live model after any history "
               "has the models of the machine's CNF and count / sat / core (via the C02, C03, C05 theorems) answer for that CNF. "
               "Refuted (vm_compute witnesses): C12_refuted_add_existing, C12_refuted_duplicate_add (code before F8; C12_fixed_on_refuting_histories for HEAD), "
-              "C12_refuted_unsat_panic (K9), C12_refuted_empty_cnf (K11). No axioms",
+              "C12_refuted_unsat_panic (K9), C12_refuted_empty_cnf (K11); C12_refines_k11_repaired: the main theorem without 'stored set not empty' for the loader of the "
+              "proposed repair repo_patches/F9-empty-cnf-clause-cache.patch. No axioms",
     "assumptions": [
-        "theorems are about the Gallina model Model/ClauseCache.v; tied to /repo by the correspondence: answer class and error text, feature count and the save-cnf text line by line after EVERY step of every explored history (model = implementation, also for the state a panic leaves behind)",
+        "theorems are about the Gallina model Model/ClauseCache.v; tied to /repo by the correspondence: answer class and error text, feature count and the save-cnf text line by line after EVERY step of every explored history (model = implementation, also for the state a panic leaves behind); when /repo carries hook H7 (repo_patches/H7-clause-cache-view.patch, detected by harness/build.rs) also the private bookkeeping total_features / old_total_features / old_state's feature count / edit_add / edit_rmv (driver_stats.cache_bookkeeping_compared) - these fields have no effect on any public answer, so a change that only corrupts them is reported as 'no-failing-input-found' with H7 and is invisible without it",
         "compiler contract (trusted base): for every CNF the compiler + loader yield a vector accepted by check_wf whose truth table is the CNF's; the run checks it for every observed live circuit (check_wf, no_dead, Models = truth table of the oracle's CNF) and validates every stand-in compiler output against the CNF's truth table in the harness",
         "oracle independent of the cache model: the abstract machine written directly in OCaml (sets of sorted int lists) + brute-force truth table; count, count a l for every literal, sat, core, the boundary (count a n+1 is an E3 error) and the save-cnf text are compared after every step; cross-checked against the extracted Spec.CnfMachine",
         "histories: exhaustive trees (every command sequence up to length 3 quick / 5 thorough over a per-CNF alphabet of 17-22 commands: adds of new / present / duplicated / permuted-literal / tautological clauses, removes of present / absent / repeated / present+absent clauses, add+rmv and rmv+re-add in one command, t growing / shrinking / below a used variable / t together with the removal of the blocking clauses, literals above n, undo, the empty update, an update that makes the formula unsatisfiable) on hand-picked CNFs (units, subsumed clauses, duplicates, tautologies, free features, empty stored set); every satisfiable Boolean function over <= 3 variables as start CNF with shorter trees (length 2-3 quick, 3-4 thorough); random histories of length 6-14 (6-30 thorough) on random CNFs with up to 8 (10) variables",
@@ -42,6 +52,7 @@ CONFIG = {
         "unsatisfiable START CNFs are not C12 cases (no model is loaded: the load panics, K9); i32/u32 overflow of literals and feature counts is not modelled (Z / nat); malformed command lines (empty clause, non-numeric tokens, several t values) belong to C13",
     ],
     "rule": "a case = one start CNF + the tree of all histories below one first command (DFS pre-order, states cloned); "
-            "evaluations = cases; driver_stats.steps = executed commands, each followed by the full observation; distinct_nontrivial counts case bodies",
+            "evaluations = cases; driver_stats.steps = executed commands, each followed by the full observation; a case is non-trivial when its tree "
+            "contains an accepted update, a rejected update and an undo; distinct = different case body (sha1)",
     "trusted": ["stand-in CNF compiler harness/src/cnfc.rs + gen.rs registered through hook H1 (every output validated against the CNF's truth table: driver_stats.standin_outputs_validated_by_truth_table)"],
 }
